@@ -54,6 +54,7 @@ pub fn scenarios(prop: &str, tier: Tier) -> Vec<ScenarioDef> {
         "C18" => crate::c18::scenarios(tier),
         "C20" => crate::c20::scenarios(tier),
         "C08" => crate::c08::scenarios(tier),
+        "C05" => crate::c05::scenarios(tier),
         "C16" => crate::c16::scenarios(tier),
         _ => Vec::new(),
     }
@@ -63,6 +64,7 @@ pub fn seq_configs(prop: &str, tier: Tier) -> Vec<crate::seqx::Config> {
     match prop {
         "C10" => crate::c10::configs(tier),
         "C08" => crate::c08::configs(tier),
+        "C05" => crate::c05core::configs(tier == Tier::Thorough),
         "C16" => crate::c16::configs(tier),
         _ => Vec::new(),
     }
